@@ -66,6 +66,12 @@ func nodeOf(x any) (ipld.Node, error) {
 		return basicnode.NewBool(b), nil
 	case "int":
 		f, _ := pv.(float64)
+		// |v| = 2*10^9 stands for the boundary integers +/-(2^53-1)
+		if f == hugeMark {
+			return basicnode.NewInt(1<<53 - 1), nil
+		} else if f == -hugeMark {
+			return basicnode.NewInt(-(1<<53 - 1)), nil
+		}
 		return basicnode.NewInt(int64(f)), nil
 	case "float":
 		f, _ := pv.(float64)
@@ -80,6 +86,12 @@ func nodeOf(x any) (ipld.Node, error) {
 			return basicnode.NewFloat(math.Inf(1)), nil
 		case "ninf":
 			return basicnode.NewFloat(math.Inf(-1)), nil
+		}
+		// |v| = 2*10^9 stands for the boundary floats +/-1.5e308
+		if f == hugeMark {
+			return basicnode.NewFloat(1.5e308), nil
+		} else if f == -hugeMark {
+			return basicnode.NewFloat(-1.5e308), nil
 		}
 		return basicnode.NewFloat(f / 2), nil
 	case "string":
@@ -147,6 +159,9 @@ func nodeOf(x any) (ipld.Node, error) {
 	return nil, fmt.Errorf("unknown value kind %q", k)
 }
 
+// hugeMark is the model's stand-in for boundary numbers (TLC integers are 32-bit).
+const hugeMark = 2000000000.0
+
 var linkNames = map[string]string{}
 
 // jsonOf is the inverse projection: real node -> Values.tla JSON form.
@@ -162,6 +177,11 @@ func jsonOf(n ipld.Node) any {
 		return []any{"bool", b}
 	case datamodel.Kind_Int:
 		i, _ := n.AsInt()
+		if i == 1<<53-1 {
+			return []any{"int", int64(hugeMark)}
+		} else if i == -(1<<53 - 1) {
+			return []any{"int", -int64(hugeMark)}
+		}
 		return []any{"int", i}
 	case datamodel.Kind_Float:
 		f, _ := n.AsFloat()
@@ -172,6 +192,11 @@ func jsonOf(n ipld.Node) any {
 			return []any{"float", 0, "pinf"}
 		case math.IsInf(f, -1):
 			return []any{"float", 0, "ninf"}
+		}
+		if f == 1.5e308 {
+			return []any{"float", int64(hugeMark), "fin"}
+		} else if f == -1.5e308 {
+			return []any{"float", -int64(hugeMark), "fin"}
 		}
 		return []any{"float", int64(math.Round(f * 2)), "fin"}
 	case datamodel.Kind_String:
